@@ -141,6 +141,16 @@ def fam_hexish(r, n):
     return out
 
 
+def fam_currency(r, n):
+    """Amounts ending in a literal dollar, some continuing past it."""
+    out = []
+    for _ in range(n):
+        a = '%d$' % r.randint(1, 99)
+        out.append(a if r.chance(0.6) else a + r.pick([' each', ' off',
+                                                      '$', ' net']))
+    return out
+
+
 FAMILIES = [fam_ids, fam_dates, fam_emails, fam_uuid, fam_tels,
             fam_bracket_punct, fam_many_frags]
 
@@ -160,7 +170,7 @@ def corpus(r, max_n=40, risky_rate=0.04, allow_none=True):
             fam = r.weighted([(3, fam_ids), (2, fam_dates), (2, fam_emails),
                               (1, fam_uuid), (2, fam_tels),
                               (3, fam_bracket_punct), (0.4, fam_many_frags),
-                              (2.5, fam_hexish)])
+                              (2.5, fam_hexish), (1.5, fam_currency)])
             k = max(1, n // (nf + (1 if mode == 'mixed' else 0)))
             if fam is fam_many_frags:
                 k = min(k, 3)
